@@ -1051,6 +1051,8 @@ func (f *Frame) closureSpec(cl *Closure) {
 	env.results = []EV{Val{sx("LeaderFn", cl.id.t, qv), SBS, cl.fn.Signature.Results().At(0).Type()}}
 	env.underQuant = true
 	vc.quantDepth++
+	vc.quantVars = append(vc.quantVars, qv)
+	defer func() { vc.quantVars = vc.quantVars[:len(vc.quantVars)-1] }()
 	var pre, post []string
 	for _, r := range con.Requires {
 		pre = append(pre, env.evalBool(r.E))
